@@ -34,6 +34,12 @@ ListAssign(s, vm, lo, hi, c) ==
   IF ListAccepts(vm, lo, hi, c) THEN [post |-> L!VSeq(vm, c.items), ret |-> None, excs |-> {""}]
   ELSE Fail(s, {"TraitError"})
 
+\* the first read of a never-assigned List trait gives the declared default - here the empty list; a default outside
+\* minlen..maxlen must never be held: the read is refused (s: what a sibling object holds, untouched)
+ListDefault(s, lo, hi) == IF LenOK(0, lo, hi) THEN [post |-> <<>>, ret |-> None, excs |-> {""}] ELSE Fail(s, {"TraitError"})
+\* del obj.xs / reset_traits: back to the default (modelled where the default is legal)
+ListReset(s, lo, hi) == [post |-> <<>>, ret |-> None, excs |-> {""}]
+
 ListInv(s, vm, lo, hi) == LenOK(Len(s), lo, hi) /\ \A i \in 1..Len(s) : s[i] \in L!Valid
 
 \* ---- List(List(T, ilo, ihi), lo, hi) --------------------------------------------------------------
